@@ -78,7 +78,7 @@ def gen_model(r, *, budget=6000, max_T=4, force=None):
         n_dc = max(n_dc, 1)
     if "mixed" in force:
         n_dc = max(n_dc, 2)
-    if force & {"filter", "sdaux"}:
+    if force & {"filter", "sdaux", "divguard"}:
         n_dc = max(n_dc, 1)
     if "stoch" in force:
         n_ds = max(n_ds, 1)
@@ -134,8 +134,10 @@ def gen_model(r, *, budget=6000, max_T=4, force=None):
     order = ["cs"] * n_cs + ["ds"] * n_ds
     r.shuffle(order)
     it = {k: iter(v) for k, v in sz.items()}
-    for k in order:
+    for j_, k in enumerate(order):
         nm = next(names)
+        if "valuename" in force and j_ == 0:
+            nm = "value"      # a state may carry any identifier; the frame also has a column of that name (C03, finding K10)
         if k == "cs":
             n_ = next(it["cs"])
             states.append([nm, log_grid(r) if ("log" in force and r.random() < 0.7) else lin_grid(r, n_)])
@@ -293,6 +295,26 @@ def gen_model(r, *, budget=6000, max_T=4, force=None):
         s = r.choice(dstates)
         funcs.append(_fn("f0_filter", [s], ["le", V(s), N(G[s]["n"])], ints=True))
 
+    # ---- "cofilter": next to a filter that involves a state, a second filter over choices only (one value of a discrete
+    #      choice - or one pair of values of two - is never available); outside C01's supported class as a lone filter
+    #      (finding K2), but solved and simulated by the library when a state-dependent filter is present
+    if "cofilter" in force and fam in ("f1", "sd", "sdp", "two") and dchoices:
+        ds_ = r.sample(dchoices, k=min(len(dchoices), r.choice([1, 1, 2])))
+        conj = None
+        for d_ in ds_:
+            ex = [v for v in range(G[d_]["n"]) if v != always.get(d_, 0)]
+            e_ = r.choice(ex) if ex else None
+            if e_ is None:
+                conj = None
+                break
+            always.setdefault(d_, 0)
+            t_ = ["eq", V(d_), N(e_)]
+            conj = t_ if conj is None else ["and", conj, t_]
+        if conj is not None:
+            r.shuffle(ds_)
+            funcs.append(_fn("co_filter", ds_, ["not", conj], ints=True))
+            meta["cofilter"] = ds_
+
     # ---- transitions
     stoch = []
     for s in snames:
@@ -322,6 +344,9 @@ def gen_model(r, *, budget=6000, max_T=4, force=None):
                 if r.random() < 0.4 and not noperiod:
                     deps.append("_period")
                 r.shuffle(deps)
+                if "iid" in force and not stoch:
+                    deps = []    # an i.i.d. shock: the transition lists no dependency, its array has the labels as only axis
+                    meta["iid"] = s
                 funcs.append(_fn(f"next_{s}", deps, N(0), stochastic=True, ints=True))
                 stoch.append(s)
             else:
@@ -378,6 +403,23 @@ def gen_model(r, *, budget=6000, max_T=4, force=None):
         r.shuffle(args)
         funcs.append(_fn(f"c{i}_constraint", args + ([pn] if pn else []), ["le", lhs, rhs], ints=False))
 
+    # ---- "divguard": utility has a term  num / min(dmax - d, 2)  in a discrete choice d, and a constraint d <= dmax - 1
+    #      excludes the choice at which the divisor is zero. At that (infeasible) choice the implementation's utility is
+    #      +inf, -inf or nan; "an infeasible choice never determines a value" (C01). Divisors 1 and 2 keep the stream exact.
+    if "divguard" in force and dchoices:
+        cand = [d for d in dchoices if d not in always and d not in flat] or [d for d in dchoices if d not in flat]
+        if cand:
+            d = r.choice(cand)
+            dmax = G[d]["n"] - 1
+            uf = next(f for f in funcs if f["name"] == "utility")
+            numv = r.choice(snames) if snames and r.random() < 0.7 else None
+            num = ["add", N(r.choice([0, 1, Fr(1, 2), 2])), V(numv)] if numv else N(r.choice([1, Fr(3, 2), 0]))
+            uf["body"] = ["add", uf["body"], ["div", num, ["min", ["sub", N(dmax), V(d)], N(2)]]]
+            for a in ([d] + ([numv] if numv else [])):
+                if a not in uf["args"]:
+                    uf["args"].append(a)
+            funcs.append(_fn("divguard_constraint", [d], ["le", V(d), N(dmax - 1)]))
+            meta["divguard"] = d
     # ---- lower-bound constraints: `min(state-side, max of the choice grid) <= choice` (the maximal choice always passes;
     #      together with an upper bound the admissible set may become empty -> the model reports the case as unsupported)
     if cnames and ("lower" in force or r.random() < 0.15):
